@@ -7,6 +7,7 @@ import (
 
 	"github.com/yaricom/goNEAT/v4/neat"
 	"github.com/yaricom/goNEAT/v4/neat/genetics"
+	"pgregory.net/rapid"
 )
 
 /* C03 - an innovation number denotes one connection for the life of a population */
@@ -138,3 +139,77 @@ func init() {
 	registerReplay("C03", "epochs", CheckC03)
 	registerReplay("C03", "history", CheckC03History)
 }
+
+/* very many innovations in one generation: a start genome with one disconnected sensor and 900-1500 non-sensor nodes; the
+   connect-sensors mutation of the first offspring records one new link per non-sensor node, the same mutation of the
+   following offspring must find every one of them in the record again */
+
+type C03Wide struct {
+	Neurons int   `json:"neurons"`
+	Members int   `json:"members"`
+	Seed    int64 `json:"seed"`
+}
+
+func GenC03Wide() *rapid.Generator[C03Wide] {
+	return rapid.Custom(func(t *rapid.T) C03Wide {
+		return C03Wide{Neurons: rapid.IntRange(900, 1500).Draw(t, "neurons"), Members: rapid.IntRange(2, 3).Draw(t, "members"),
+			Seed: int64(rapid.IntRange(0, 1<<30).Draw(t, "seed"))}
+	})
+}
+
+func CheckC03Wide(c C03Wide, rec *Rec) error {
+	s := GenomeSpec{Id: 1, Traits: []TraitSpec{{Id: 1, Params: make([]float64, neat.NumTraitParams)}}}
+	s.Nodes = append(s.Nodes, NodeSpec{Id: 1, Role: roleInput, Act: 17}, NodeSpec{Id: 2, Role: roleInput, Act: 17})
+	for i := 0; i < c.Neurons; i++ {
+		role := roleOutput
+		if i%3 == 2 {
+			role = roleHidden
+		}
+		s.Nodes = append(s.Nodes, NodeSpec{Id: 3 + i, Role: role, Act: 4})
+		s.Genes = append(s.Genes, GeneSpec{In: 1, Out: 3 + i, W: 0.5, Innov: int64(1 + i), Mut: 0.5, En: true, Trait: 1})
+	}
+	opts := defaultOpts().Build()
+	pop := populationFor(s)
+	seedLibrary(c.Seed)
+	var members []*genetics.Genome
+	for m := 0; m < c.Members; m++ {
+		g := s.Build()
+		g.Id = m
+		ok, err := g.VerifMutateConnectSensors(pop, opts)
+		if err != nil || !ok {
+			return fmt.Errorf("connect-sensors on member %d returned (%v, %v)", m, ok, err)
+		}
+		if len(g.Genes) != 2*c.Neurons {
+			return fmt.Errorf("member %d has %d genes after connect-sensors, %d expected", m, len(g.Genes), 2*c.Neurons)
+		}
+		members = append(members, g)
+	}
+	if err := oneMeaning(members); err != nil {
+		return err
+	}
+	numbers := map[[2]int]int64{}
+	for mi, g := range members {
+		for _, gn := range g.Genes {
+			k := [2]int{gn.Link.InNode.Id, gn.Link.OutNode.Id}
+			if old, ok := numbers[k]; ok && old != gn.InnovationNum {
+				return fmt.Errorf("the new link %d->%d received the innovation numbers %d and %d in one generation (member %d; %d innovations recorded)",
+					k[0], k[1], old, gn.InnovationNum, mi, len(pop.Innovations()))
+			}
+			numbers[k] = gn.InnovationNum
+		}
+	}
+	if n := len(pop.Innovations()); n != c.Neurons {
+		return fmt.Errorf("%d innovations recorded for %d new links", n, c.Neurons)
+	}
+	if c.Neurons > 1024 {
+		rec.Class("more than 1024 innovations in one generation")
+	}
+	rec.NonTrivial(hashOf(c.Neurons, c.Members))
+	return nil
+}
+
+func TestC03Wide(t *testing.T) {
+	runProp(t, "C03", "wide", 4, 40, GenC03Wide(), CheckC03Wide)
+}
+
+func init() { registerReplay("C03", "wide", CheckC03Wide) }
